@@ -103,7 +103,7 @@ def targeted(frame: str, r) -> str | None:
     pl = frame[46:]
     if code == "1F09" and len(pl) == 6:
         return f"{frame[:46]}{pl[:2]}{r.choice(['0000', '0001', 'FFFF', '0002', '7FFF'])}"
-    if code in ZONE_CODES and len(pl) >= 2 and pl[:2] not in ("FC", "FA", "F9", "FF"):
+    if code in ZONE_CODES and len(pl) >= 2 and pl[:2] not in ("FC", "FA", "F9", "FF") and not (code == "000C" and r.random() < 0.5):
         z = r.choice(["00", "01", "07", "0B", "0C", "0F", "10", "FA", "FC", f"{r.randrange(16):02X}"])
         q = z + pl[2:]
         rx = (CODES_SCHEMA.get(code) or {}).get(verb)
@@ -111,6 +111,8 @@ def targeted(frame: str, r) -> str | None:
             return f"{frame[:46]}{q}"
     if code == "000C" and len(pl) >= 12:  # another device id in the same role
         d = r.choice(["04:111111", "13:111112", "34:111113", "01:145038", "07:111114", "10:111115", "04:111116", frame[7:16], frame[7:16]])
+        if pl[2:4] == "04" and r.random() < 0.6:
+            d = frame[7:16]  # the controller itself as the zone's sensor (legal for one zone)
         t, n = d.split(":")
         q = pl[:6] + f"{(int(t) << 18) + int(n):06X}" + pl[12:]
         return f"{frame[:46]}{q}"
@@ -294,6 +296,7 @@ def generate(plan) -> None:
     k["eavesdrop"] = r.random() < (0.6 if sc == "schema" else 0.4)
     k["max_zones"] = r.choice([1, 2, 4, 8, 12, 12, 12, 16])
     k["read_only"] = bool(sc == "views" and r.random() < 0.15)  # the 'disable_sending' configuration
+    k["via_file"] = bool(sc == "views" and not k["read_only"] and r.random() < 0.15)  # the history is a packet log being replayed
     k["time_mode"] = r.choice(["fast", "fast", "log"])
     k["gap_cap"] = r.choice([1.0, 30.0, 400.0])
     if ff:
@@ -309,7 +312,7 @@ def generate(plan) -> None:
         k["config_schema"] = gen_schema(r, k["max_zones"])
         k["eavesdrop"] = r.random() < 0.3
     # non-interference twin: a second gateway hears the same history minus the spliced-in system (eavesdropping off only)
-    twin_wanted = bool(sc == "views" and not k["eavesdrop"] and not ff and r.random() < 0.8)
+    twin_wanted = bool(sc == "views" and not k["eavesdrop"] and not ff and not k["via_file"] and r.random() < 0.8)
     k["p_neighbour"] = r.choice([0.0, 0.3, 1.0]) if twin_wanted else 0.0
     ops = build_history(r, k)
     n = len(ops)
@@ -321,7 +324,7 @@ def generate(plan) -> None:
     n_state = r.choice([0, 1, 2, 4]) if sc == "views" else r.choice([0, 1])
     for _ in range(n_state):
         extra.append((r.randrange(n + 1), {"op": "state", "exp": r.random() < 0.5}))
-    if n_state and sc == "views" and not k["twin"]:
+    if n_state and sc == "views" and not k["twin"] and not k["via_file"]:
         for _ in range(r.choice([0, 1, 2])):
             extra.append((r.randrange(n // 3, n + 1), {"op": "restore", "k": r.randrange(8),
                                                       "how": r.choice(["plain", "plain", "cancel", "concurrent", "damaged", "twice"])}))
@@ -568,6 +571,8 @@ async def run(ctx) -> None:
         return await state_restore.run(ctx)
     plan, loop, hub = ctx.plan, ctx.loop, ctx.hub
     k = plan.knob
+    if k("via_file"):
+        return await run_file(ctx)
     cfg_schema = k("config_schema")
     if cfg_schema:
         try:
@@ -905,6 +910,101 @@ async def run(ctx) -> None:
     ctx.sample = {"scenario": sc, "base": k("base"), "splice": k("splice"), "packets": n_rx, "eavesdrop": k("eavesdrop"),
                   "max_zones": k("max_zones"), "mutation_rates": {x: k(x) for x in ("p_del", "p_dup", "p_swap", "p_mut", "p_tgt")},
                   "ops": [o for o in plan.ops if o["op"] != "rx"][:8], "devices": len(gwy.devices)}
+
+
+class CountingLog(io.TextIOWrapper):
+    """a packet log whose consumption can be observed"""
+
+    count = 0
+
+    def __next__(self):
+        line = super().__next__()
+        self.count += 1
+        return line
+
+
+async def run_file(ctx) -> None:
+    """The same history as a packet log replayed through Gateway(input_file=...): views, snapshots and restores are taken while the
+    replay is under way (between two lines); afterwards the replay must still run to its end."""
+    import datetime as _dt
+
+    plan, loop, hub = ctx.plan, ctx.loop, ctx.hub
+    k = plan.knob
+    t = clock.EPOCH
+    lines = []
+    for o in plan.ops:
+        if o["op"] == "rx":
+            t += _dt.timedelta(seconds=max(0.001, float(o.get("gap", 0.004))))
+            lines.append(f"{t.isoformat(timespec='microseconds')} 045 {o['f']}")
+    f = CountingLog(io.BytesIO(("\n".join(lines) + "\n").encode("latin-1")), encoding="latin-1")
+    for name, n in sorted((k("hist_counts") or {}).items()):
+        hub.count(name, n)
+    hub.count("replayed_as_packet_log")
+    gwy = Gateway(None, input_file=f, config={"enable_eavesdrop": bool(k("eavesdrop")), "max_zones": k("max_zones", 12)})
+    snaps: list = []
+    # the operations are due after a given number of log lines; with a packet log start() only returns at the end of the
+    # log, so they are performed from the message handler (synchronously, between two lines) as an application would
+    due: list[tuple[int, int, dict]] = []
+    target = 0
+    for si, o in enumerate(plan.ops):
+        if o["op"] == "rx":
+            target += 1
+        elif o["op"] in ("views", "state", "schema"):
+            due.append((target, si, o))
+    tasks: list = []
+    broken = [False]
+
+    def perform(upto: int) -> None:
+        while due and due[0][0] <= upto and not broken[0]:
+            _n, si, o = due.pop(0)
+            kind = o["op"]
+            where = f"op {si} ({kind}) with {f.count} of {len(lines)} log lines replayed"
+            if kind == "views":
+                ctx.probe("views_read", read_views(ctx, gwy, where))
+            elif kind == "state":
+                try:
+                    snaps.append(gwy.get_state(include_expired=bool(o.get("exp"))))
+                    ctx.probe("snapshots_mid_replay" if f.count < len(lines) else "snapshots")
+                except Exception as err:  # noqa
+                    ctx.violate("C13", "view_raised", f"Gateway.get_state:{exc_sig(err)}", f"{where}: get_state() raised {type(err).__name__}: {err}")
+                if gwy._engine_state is not None or gwy._protocol._msg_handler is None:
+                    ctx.violate("C13", "left_paused", "get_state_mid_replay", f"{where}: the engine is still paused after get_state()")
+                    broken[0] = True
+            elif kind == "schema":
+                small = schema_check(ctx, gwy, where)
+                if small is not None and o.get("reload"):
+                    tasks.append(loop.create_task(reload_check(ctx, gwy, small, where)))
+
+    gwy.add_msg_handler(lambda msg: perform(f.count))
+    stalled = False
+    try:
+        await asyncio.wait_for(gwy.start(), 300)
+        await asyncio.wait_for(gwy._protocol.wait_for_connection_lost(), 120)
+    except Exception as err:  # noqa
+        stalled = True
+        ctx.probe(f"replay_wait_raised_{type(err).__name__}")
+    if stalled or f.count < len(lines):
+        ctx.violate("C13", "not_receiving", "replay_stalled", f"the replay of the packet log stopped after {f.count} of {len(lines)} lines "
+                    f"(after a snapshot taken while it was under way): the rest of the history never arrives")
+    else:
+        perform(len(lines) + 1)
+    for t_ in tasks:
+        try:
+            await t_
+        except Exception:  # noqa
+            pass
+    ctx.probe("views_read", read_views(ctx, gwy, "end of replay"))
+    schema_check(ctx, gwy, "end of replay")
+    try:
+        await gwy.stop()
+    except (Exception, asyncio.CancelledError):  # noqa: a stalled replay does not stop in an orderly way
+        ctx.probe("stop_after_stalled_replay_raised")
+    await asyncio.sleep(0.05)
+    gc.collect()
+    ctx.nontrivial = not k("fault_free")
+    ctx.ab(f"file|{k('base')}|{k('splice')}|{k('eavesdrop')}")
+    ctx.ab(",".join(o["op"][:2] for o in plan.ops if o["op"] != "rx"))
+    ctx.sample = {"scenario": "views (packet log replay)", "base": k("base"), "lines": len(lines), "ops": [o for o in plan.ops if o["op"] != "rx"][:6]}
 
 
 def on_hang(ctx, where: str, pending: list[str]) -> None:
